@@ -929,7 +929,7 @@ func gDapply(e []gEnt, o gDop) []gEnt {
 	case 0:
 		return gSet(e, o.a, o.ino)
 	case 1:
-		return gRename(e, o.a, o.b)
+		return gSet(gRemove(e, o.a), o.b, o.ino)
 	default:
 		return gRemove(e, o.a)
 	}
@@ -977,8 +977,8 @@ func (fs *gFs) apply(o gOp) {
 		}
 	case 3:
 		if i >= 0 {
+			fs.pdir = append(fs.pdir, gDop{1, o.a, o.b, fs.ents[i].ino})
 			fs.ents = gRename(fs.ents, o.a, o.b)
-			fs.pdir = append(fs.pdir, gDop{1, o.a, o.b, 0})
 		}
 	case 4:
 		if i >= 0 {
